@@ -192,6 +192,22 @@ def obligations(tier, rng):
                 for mode in ['offline'] + (['pastified'] if fut else ['online']):
                     out.append(ob('C09', 'dt', 'dt/%s/nested/p=%s/q=%s/out=%s' % (mode, text(d), text(q), text(m)),
                                   defs=[['p', d], ['q', q]], main=m, N=N, mode=mode, style='sub'))
+    if not quick:
+        # seeded random definitions (depth 2 over x,y) referenced by seeded random formulas (depth 2 over p,z)
+        rops = ['not', 'and', 'or', 'implies', 'once', 'historically', 'prev', 'rise', 'since', 'once_t', 'historically_t', 'since_t', 'geq', 'abs', 'sub',
+                'eventually_t', 'always_t', 'until_t', 'next']
+        k = 0
+        while k < 300:
+            d = refsem.gen_formula(rng, 2, rops, [(0, 1), (1, 2)], ('x', 'y'))
+            m = refsem.gen_formula(rng, 2, rops, [(0, 1), (1, 2)], ('p', 'z'))
+            if 'p' not in variables(m) or d[0] in ('var', 'const'):
+                continue
+            k += 1
+            fut = refsem.has_future(d) or refsem.has_future(m)
+            if fut and hor(inline(m, {'p': d})) > 6:
+                continue
+            for mode in ['offline'] + (['pastified'] if fut else ['online']):
+                out.append(ob('C09', 'dt', 'dt/%s/random%d/p=%s/out=%s' % (mode, k, text(d), text(m)), defs=[['p', d]], main=m, N=6, mode=mode, style='sub'))
     # constants as operands and as bounds
     const_cases = [
         ('out = (x) >= (c)', [['c', 'float', '1.5']], 'out = (x) >= (1.5)', ('geq', X, C15)),
